@@ -18,7 +18,7 @@ MANIFEST = {
 }
 THEOREMS = ['C02.capSites_table', 'C02.cap_growth_entitled', 'C02.no_new_owner_step', 'C02.not_granted_owner', 'C02.reload_caps_sub',
             'C02.no_new_owner_reload', 'C02.reload_preserves_inv', 'C02.reloadNoFlush_preserves_inv', 'C02.step_preserves_inv', 'C02.history_safe',
-            'C02.step_preserves_fileOk', 'C02.reloadNoFlush_caps_sub', 'C02.no_new_owner_reloadNoFlush', 'C02.reloadUsersFrom_file', 'C02.reloadNoFlush_owners', 'C02.step_ownInv', 'C02.history_owner_safe', 'C02.flushReload_fileOk',
+            'C02.step_preserves_fileOk', 'C02.reloadNoFlush_caps_sub', 'C02.no_new_owner_reloadNoFlush', 'C02.reloadUsersFrom_file', 'C02.reloadNoFlush_owners', 'C02.step_ownInv', 'C02.history_owner_safe', 'C02.permCaps_perm', 'C02.fileOrder_fileOk', 'C02.fileOrder_fileOwn', 'C02.stepEv_ownInv', 'C02.history_owner_safe_ev', 'C02.history_safe_all_ev', 'C02.flushReload_fileOk',
             'C02.reloadNoFlush_fileOk', 'C02.step_safe_all', 'C02.history_safe_all', 'C02.st0_inv3',
             'C02.st0_inv', 'C02.cfg0_hashSafe']
 TRUSTED = ['Lean 4.33.0 kernel; axioms ⊆ {propext, Classical.choice, Quot.sound}',
@@ -197,7 +197,14 @@ def gen_cmd(r, S=None):
         return (k, [name(), r.choice(HOSTMASKS), pw()])
     if k == 'setPassword': return (k, [name(), pw(), pw()])
     if k == 'setSecure': return (k, [pw(), r.choice([True, False, None])])
-    if k == 'capAdd': return (k, [name(), cap()])
+    if k == 'capAdd':
+        if r.random() < 0.2:
+            # towards a set holding a capability and its inverse: the holder of '--x' is given '-x'
+            dbl = [(u['name'], c) for _, u in users for c in u['caps'] if c.startswith('--') and u['name']]
+            if dbl:
+                n, c = r.choice(dbl); return (k, [n, c[1:]])
+            return (k, [r.choice(live_names), r.choice(['--foo', '--bar', '--admin'])])
+        return (k, [name(), cap()])
     if k == 'capRemove':
         h = held_cap()
         return (k, list(h) if h else [name(), cap()])
@@ -207,7 +214,9 @@ def gen_cmd(r, S=None):
         if h:
             ch, c = h[1].split(',', 1); return (k, [ch, h[0], c])
         return (k, [r.choice(CHANS), name(), cap()])
-    if k == 'chanCapSet': return (k, [r.choice(CHANS), [cap() for _ in range(r.randint(1, 3))]])
+    if k == 'chanCapSet':
+        if r.random() < 0.15: return (k, [r.choice(['#chan', '#other']), r.choice([['--foo', '-foo'], ['--op', '-op'], ['--bar', 'x', '-bar']])])
+        return (k, [r.choice(CHANS), [cap() for _ in range(r.randint(1, 3))]])
     if k == 'chanCapUnset':
         chans = [(n, c['caps']) for n, c in (S['chans'] if S else []) if c['caps']]
         if chans and r.random() < 0.7:
@@ -303,6 +312,23 @@ def entitled_grant(b, before_fn, prefix, k, args):
     return before_fn
 
 # ---------------------------------------------------------------------------------------------
+def file_cap_orders(path, header):
+    """[(key, [capabilities in file order])] of a users.conf / channels.conf as it stands on disk"""
+    out = []
+    try:
+        with open(path, encoding='utf8', newline='\n') as f:
+            data = f.read()
+    except OSError:
+        return out
+    cur = None
+    for line in data.split('\n'):
+        if line.startswith(header + ' '):
+            cur = (line[len(header) + 1:], [])
+            out.append(cur)
+        elif line.startswith('  capability ') and cur is not None:
+            cur[1].append(line[len('  capability '):])
+    return out
+
 def plugins_line(b):
     tbl = []
     for cb in b.irc.callbacks:
@@ -318,17 +344,23 @@ def run_history(b, r, n_steps, out, hist_id):
     steps = []
     prev = S
     trail = []
+    pending = []
+    kinds = []          # one entry per driver line after plugins/init: 'step' or 'order'
+    I16 = type('I', (), {'ircdb': ircdb})
     for si in range(n_steps):
-        k, args = gen_cmd(r, prev)
+        if pending:
+            k, args = pending.pop(0)
+        else:
+            k, args = gen_cmd(r, prev)
         actor = gen_actor(r, k)
+        if k == 'flushReload' and (any(c16.inverse_pair(I16, u['caps']) for _, u in prev['users']) or
+                                   any(c16.inverse_pair(I16, c['caps']) for _, c in prev['chans'])):
+            # finding C16-capability-inverse-pair: with both '--foo' and '-foo' in a set, which of them survives a
+            # reload depends on the order the Python set was written in.  The order is an input of the model
+            # (Ev.order): the files are written first, then read here, then reloaded
+            k, args = 'flushAll', []
+            pending.insert(0, ('reload', []))
         if k == 'flushReload':
-            # known finding C16-capability-inverse-pair: with both '--foo' and '-foo' in a set, which of them survives
-            # a reload depends on the iteration order of the Python set (the model has one fixed order); such a
-            # state is not reloaded here (C16 replays the finding itself)
-            I16 = type('I', (), {'ircdb': ircdb})
-            if any(c16.inverse_pair(I16, u['caps']) for _, u in prev['users']) or \
-                    any(c16.inverse_pair(I16, c['caps']) for _, c in prev['chans']):
-                continue
             ircdb.log.clear()
             ircdb.users.flush(); ircdb.users.reload()
             ircdb.channels.flush(); ircdb.channels.reload()
@@ -347,11 +379,18 @@ def run_history(b, r, n_steps, out, hist_id):
             ok = True
             guard = None
         elif k == 'reload':
-            # SIGHUP / 'config reload' (Config._reload): the files are read as they are, nothing is flushed first
-            I16 = type('I', (), {'ircdb': ircdb})
-            if any(c16.inverse_pair(I16, u['caps']) for _, u in prev['users']) or \
-                    any(c16.inverse_pair(I16, c['caps']) for _, c in prev['chans']):
-                continue
+            # SIGHUP / 'config reload' (Config._reload): the files are read as they are, nothing is flushed first.
+            # The order in which the capability sets stand in the files is told to the model (which accepts it
+            # only as a permutation of what it has saved: a relation checked in Lean, C02.St.fileOrderOk)
+            uo = [(key, caps) for key, caps in file_cap_orders(ircdb.users.filename, 'user') if len(caps) > 1]
+            co = [(key, caps) for key, caps in file_cap_orders(ircdb.channels.filename, 'channel')
+                  if len(caps) > 1 and sorted(caps) != DEFAULT_CHAN['caps']]
+            if os.environ.get('C02_REVERSE_ORDER'):     # self-test of the harness: a wrong order must be noticed
+                uo = [(key, caps[::-1]) for key, caps in uo]; co = [(key, caps[::-1]) for key, caps in co]
+            drv.append('order\t%s\t%s' % (';'.join('%s=%s' % (key, c16.encL('+', caps)) for key, caps in uo) or '-',
+                                           c16.enc_entries(lambda cs: c16.encL('+', cs), co)))
+            kinds.append('order')
+            inv_pair = any(c16.inverse_pair(I16, caps) for _, caps in uo + co)
             ircdb.log.clear()
             ircdb.users.reload(); ircdb.ignores.reload(); ircdb.channels.reload()
             ok = True
@@ -430,22 +469,36 @@ def run_history(b, r, n_steps, out, hist_id):
         if k in ('capAdd', 'capRemove', 'chanCapAdd', 'chanCapRemove') and not ok and \
                 c16.enc_users(c16.canon_users(cur['users'])) != c16.enc_users(c16.canon_users(prev['users'])):
             tags.append('goodrun-unacknowledged-change')
+        if k == 'reload':
+            tags.append('reload-with-order-event' if (uo or co) else 'reload-no-sets')
+            if inv_pair:
+                tags.append('reload-inverse-pair-state')
         if k in ('flushReload', 'reload') and getattr(ircdb.log, 'exc', None):
             tags.append('load-stopped')        # no longer a run condition: history_safe_all covers loads that stop
         c = Case({'history': hist_id, 'step': si, 'trail': list(trail)}, impl=('1' if ok else '0') + '\t' + enc_state(cur),
                  oracle_ok=(not msgs), oracle_msg='; '.join(msgs), kind='history', tags=tuple(tags) if (changed or k in ('flushReload', 'reload', 'flushAll', 'upkeep')) else ())
         steps.append(c)
         drv.append('cmd\t%s\t%s' % (wire.enc(actor), enc_cmd(k, args)))
+        kinds.append('step')
         prev = cur
-    def fill(o, steps=steps):
-        # o[0] = plugins, o[1] = init echo; one line per step
+    def fill(o, steps=steps, kinds=kinds):
+        # o[0] = plugins, o[1] = init echo; then one line per step, and one per order event
         res = []
-        for line in o[2:]:
+        bad_order = None
+        for kind, line in zip(kinds, o[2:]):
+            if kind == 'order':
+                if line != 'ok':
+                    bad_order = line
+                continue
             f = line.split('\t')
             try:
-                res.append(f[0] + '\t' + canon_model_state(f[1:]))
+                m = f[0] + '\t' + canon_model_state(f[1:])
             except Exception as e:
-                res.append('uncanonicalisable %r' % (line[:200],))
+                m = 'uncanonicalisable %r' % (line[:200],)
+            if bad_order:
+                m = 'saved files differ from the model\'s (%s)\t' % bad_order + m
+                bad_order = None
+            res.append(m)
         return res
     out.append((steps, drv, fill))
 
